@@ -48,6 +48,8 @@ def history_strategy():
         st.tuples(st.just("gc"), st.integers(0, 3)).map(list),
         st.tuples(st.just("p"), st.sampled_from([2.0, 4.0, 0.5])).map(list),
         st.tuples(st.just("gate"), st.sampled_from(["ds", "sd"])).map(list),
+        # a dtype-agnostic function called on equal shapes of different element types / widths
+        st.tuples(st.just("mag"), st.sampled_from(["f32", "i32", "i16", "i8"])).map(list),  # float16: open finding C03-abs-after-astype-float16
     )
     base = st.one_of(blocks.site_strategy(), blocks.site_strategy(), extra)
     shaped = st.tuples(base, st.sampled_from(["full", "full", "half"])).map(lambda t: t[0] + [t[1]] if t[0][0] in ("fn", "g") else t[0])
@@ -75,6 +77,8 @@ def history_strategy():
                 alt[1] = {2.0: 4.0, 4.0: 0.5, 0.5: 2.0}[src[1]]
             elif src[0] == "gate":
                 alt[1] = "sd" if src[1] == "ds" else "ds"
+            elif src[0] == "mag":
+                alt[1] = {"f32": "i32", "i32": "i16", "i16": "i32", "i8": "i16"}[src[1]]
             elif src[0] == "fn":
                 alt[1] = {-1.0: -2.0, -2.0: -1.0}.get(src[1], -src[1]) if draw(st.booleans()) else src[1]
                 if len(alt) > 2 and alt[1] == src[1]:
@@ -100,6 +104,10 @@ def build(history, variant):
                 acc = g(acc, jnp.asarray(blocks.CONSTS[s[1]]))
             elif s[0] == "p":
                 acc = {"plain": blocks.p_plain, "fn": blocks.p_fn, "uniq": blocks.p_uniq}[variant](acc, s[1])
+            elif s[0] == "mag":
+                mg = {"plain": blocks.mag_plain, "fn": blocks.mag_fn, "uniq": blocks.mag_uniq}[variant]
+                r = mg(jnp.clip(acc * 4.0, -100.0, 100.0).astype(blocks.MAG_DTYPES[s[1]]))
+                acc = acc + (r[:, :4] + r[:, 4:]).astype(jnp.float32) * 0.01
             elif s[0] == "gate":
                 gt = {"plain": blocks.gate_plain, "fn": blocks.gate_fn, "uniq": blocks.gate_uniq}[variant]
                 acc = gt(acc * 0.5, double=double, shift=shift) if s[1] == "ds" else gt(acc * 0.5, shift=shift, double=double)
